@@ -342,7 +342,11 @@ class Magnet():
         :raises URLError: if `uri` contains an invalid URL (e.g. :attr:`tr`)
         :raises MagnetError: if `uri` is not a valid magnet URI
         """
-        info = urllib.parse.urlparse(uri.strip(), scheme='magnet', allow_fragments=False)
+        try:
+            info = urllib.parse.urlparse(uri.strip(), scheme='magnet', allow_fragments=False)
+        except ValueError:
+            # E.g. "Invalid IPv6 URL"
+            raise error.MagnetError(uri, 'Not a magnet URI')
         if not info.scheme == 'magnet':
             raise error.MagnetError(uri, 'Not a magnet URI')
         else:
